@@ -2,14 +2,16 @@
    Concrete value universe, the harness-defined validators, a model of convert_value on that
    universe, and `eval_case : ... -> list Z` = model outcome ++ [-1] ++ what the specification demands. *)
 From Coq Require Import List ZArith Bool Arith.
-From PV Require Import Base.Exn Model.ValidateSem Spec.ValidateSpec Gen.Validate.
+From PV Require Import Base.Exn Model.ValidateSem Spec.ValidateSpec Gen.Validate Model.ValidateSources Gen.ValidateSources
+  Spec.ValidateSourcesSpec.
 Import ListNotations.
 Open Scope Z_scope.
 
 (* strings: decimal numerals (canonical, or padded with blanks) and a fixed word table shared with
    harness/w_validate.py: 0 'true' 1 'false' 2 'abc' 3 ' True ' 4 '' 5 'x1' 6 'True' *)
 Inductive sval := SNum (z : Z) (padded : bool) | SWord (k : Z).
-Inductive val := VNone | VInt (z : Z) | VBool (b : bool) | VStr (s : sval) | VSelf.
+(* VList: a list of strings (request.args.getlist / convert_value(..., list)) *)
+Inductive val := VNone | VInt (z : Z) | VBool (b : bool) | VStr (s : sval) | VSelf | VList (items : list sval).
 
 Definition is_none (v : val) : bool := match v with VNone => true | _ => false end.
 
@@ -38,8 +40,19 @@ Definition convert_bool (v : val) : outcome val :=
   | VInt 0 | VStr (SNum 0 _) | VStr (SWord 1) => Ok (VBool false)
   | _ => conv_err
   end.
+(* target type list: str(value).strip().lower().split(',') with every item stripped - one item on this universe *)
+Definition lower_word (k : Z) : Z := match k with 3 | 6 => 0 | _ => k end.
+Definition convert_list (v : val) : outcome val :=
+  match v with
+  | VList _ => Ok v
+  | VInt z | VStr (SNum z _) => Ok (VList [SNum z false])
+  | VStr (SWord k) => Ok (VList [SWord (lower_word k)])
+  | VBool true => Ok (VList [SWord 0])
+  | VBool false => Ok (VList [SWord 1])
+  | _ => conv_err
+  end.
 Definition converter (code : Z) : option (val -> outcome val) :=
-  match code with 1 => Some convert_int | 2 => Some convert_str | 3 => Some convert_bool | _ => None end.
+  match code with 1 => Some convert_int | 2 => Some convert_str | 3 => Some convert_bool | 4 => Some convert_list | _ => None end.
 
 (* str.strip() on the string universe (EnvironmentVariableParameter.load_value) *)
 Definition strip (v : val) : val :=
@@ -76,22 +89,104 @@ Definition interp (d : vdesc) (v : val) : outcome val :=
   | DRejectOddSub => match v with VInt z => if Z.odd z then Raise (ValidatorExceptionC ++ [0%nat]) else Ok v | _ => Ok v end
   end.
 
-(* external source as the harness set it up: absent / harness-defined source holding a value /
-   harness-defined source whose load_value raises / environment variable holding a raw string *)
-Inductive extdesc := XNone | XAbsent | XValue (v : val) | XBroken (e : exn) | XEnv (raw : val).
-Definition ext_of (x : extdesc) : option (ext val) :=
+(* ---- the world of the external sources (Model/ValidateSources.v) on this universe ----
+   header names: code = parameter name + 100 * spelling (0 as the parameter, 1 upper case, 2 capitalised): one WSGI key;
+   environment variables: codes chosen by the harness; a Python list of strings is VList;
+   the harness-defined Deserializable (harness/w_validate.py HDeser.from_json): returns the member p1 of the JSON object;
+   KeyError without it, TypeError for the document null, ValidatorException for a negative int, ValueError for a bool *)
+Definition hkey (k : nat) : nat := Nat.modulo k 100.
+Definition item_of (v : val) : sval := match v with VStr s => s | _ => SWord 99 end.
+Definition of_list (l : list val) : val := VList (map item_of l).
+Definition from_json (b : json_body val) : outcome val :=
+  match b with
+  | JNull => Raise TypeErrorC
+  | JObject ms =>
+      match assoc_by (Nat.eqb 1%nat) ms with
+      | None => Raise KeyErrorC
+      | Some (VInt z) => if z <? 0 then Raise ValidatorExceptionC else Ok (VInt z)
+      | Some (VBool _) => Raise ValueErrorC
+      | Some v => Ok v
+      end
+  end.
+
+Definition src_has_v := src_has val hkey.
+Definition src_load_v := src_load val hkey strip of_list from_json.
+Definition ext_of_source_v := ext_of_source val hkey strip of_list from_json.
+
+(* request: None = outside a request context; json: None = not a JSON request, Some None = the document null *)
+Definition mkworld (rq : option (option (option (list (nat * val))) * list (nat * list val) * list (nat * list val) * list (nat * val)))
+           (environ : list (nat * val)) : world val :=
+  {| wd_request := match rq with
+                   | None => None
+                   | Some (j, f, a, h) =>
+                       Some {| fr_json := match j with None => None | Some None => Some JNull | Some (Some ms) => Some (JObject ms) end;
+                               fr_form := f; fr_args := a; fr_headers := h |}
+                   end;
+     wd_environ := environ |}.
+
+(* external source as the harness set it up: absent / harness-defined source holding a value / harness-defined source
+   whose load_value raises / a source object of one of the classes of the library: kind, key (self.name or the
+   environment variable), as_list = (value_type == list).
+   For the MODEL the source is interpreted through the description of its class regenerated from the code
+   (Gen/ValidateSources.v); for the SPECIFICATION it is what Spec/ValidateSourcesSpec.v says about that kind of source
+   (key present / the value held), independent of the code. *)
+Inductive extdesc := XNone | XAbsent | XValue (v : val) | XBroken (e : exn) | XSrc (k : source_kind) (key : nat) (as_list : bool).
+
+Definition class_of_kind (k : source_kind) : source_class :=
+  match k with
+  | KJson => flask_json_parameter | KForm => flask_form_parameter | KQuery => flask_get_parameter
+  | KHeader => flask_header_parameter | KEnv => environment_variable_parameter
+  end.
+
+Definition ext_of (w : world val) (x : extdesc) : outcome (option (ext val)) :=
+  match x with
+  | XNone => Ok None
+  | XAbsent => Ok (Some {| e_has := false; e_load := Raise KeyErrorC |})
+  | XValue v => Ok (Some {| e_has := true; e_load := Ok v |})
+  | XBroken e => Ok (Some {| e_has := true; e_load := Raise e |})
+  | XSrc k key l =>
+      match ext_of_source_v {| s_cls := class_of_kind k; s_key := key; s_list := l; s_catch := true |} w with
+      | Ok x => Ok (Some x)
+      | Raise e => Raise e
+      end
+  end.
+
+Definition spec_ext_of (w : world val) (x : extdesc) : option (ext val) :=
   match x with
   | XNone => None
   | XAbsent => Some {| e_has := false; e_load := Raise KeyErrorC |}
   | XValue v => Some {| e_has := true; e_load := Ok v |}
   | XBroken e => Some {| e_has := true; e_load := Raise e |}
-  | XEnv raw => Some {| e_has := true; e_load := Ok (strip raw) |}
+  | XSrc k key l =>
+      Some {| e_has := present val hkey k w key;
+              e_load := match source_value val hkey strip of_list k l w key with Some v => Ok v | None => Raise KeyErrorC end |}
   end.
 
+(* a Parameter description before its source is looked at *)
+Record pdesc := { pd_param : param val; pd_ext : extdesc }.
 Definition mkp (n : nat) (conv : Z) (chain : list vdesc) (required : bool) (default : option val)
-           (exc : exn) (x : extdesc) (json : bool) : param val :=
-  {| p_name := n; p_convert := converter conv; p_chain := map interp chain; p_required := required;
-     p_default := default; p_exc := exc; p_ext := ext_of x; p_flask_json := json |}.
+           (exc : exn) (x : extdesc) (json : bool) : pdesc :=
+  {| pd_param := {| p_name := n; p_convert := converter conv; p_chain := map interp chain; p_required := required;
+                    p_default := default; p_exc := exc; p_ext := None; p_flask_json := json |};
+     pd_ext := x |}.
+
+Definition set_ext (p : param val) (x : option (ext val)) : param val :=
+  {| p_name := p_name p; p_convert := p_convert p; p_chain := p_chain p; p_required := p_required p;
+     p_default := p_default p; p_exc := p_exc p; p_ext := x; p_flask_json := p_flask_json p |}.
+
+Fixpoint bind_world (w : world val) (ps : list pdesc) : outcome (list (param val)) :=
+  match ps with
+  | [] => Ok []
+  | d :: rest =>
+      match ext_of w (pd_ext d), bind_world w rest with
+      | Ok x, Ok qs => Ok (set_ext (pd_param d) x :: qs)
+      | Raise e, _ => Raise e
+      | _, Raise e => Raise e
+      end
+  end.
+
+Definition bind_spec (w : world val) (ps : list pdesc) : list (param val) :=
+  map (fun d => set_ext (pd_param d) (spec_ext_of w (pd_ext d))) ps.
 
 Definition mksp (n : nat) (kwonly : bool) (default : option val) : sigparam val :=
   {| sp_name := n; sp_kwonly := kwonly; sp_default := default |}.
@@ -99,10 +194,14 @@ Definition mksp (n : nat) (kwonly : bool) (default : option val) : sigparam val 
 Definition mode_of (m : Z) : return_as :=
   match m with 0 => ARGS | 1 => KWARGS_WITH_NONE | _ => KWARGS_WITHOUT_NONE end.
 
-(* request: None = outside a request context *)
-Definition mkenv (rq : option (bool * list nat)) : wenv :=
+(* what the strict-JSON clause of _wrapper_content sees of the request *)
+Definition mkenv (w : world val) : wenv :=
   {| w_flask_installed := true;
-     w_request := match rq with Some (j, ks) => Some {| r_is_json := j; r_json_keys := ks |} | None => None end |}.
+     w_request := match wd_request w with
+                  | Some rq => Some {| r_is_json := match fr_json rq with Some _ => true | None => false end;
+                                       r_json_keys := match fr_json rq with Some (JObject ms) => map fst ms | _ => [] end |}
+                  | None => None
+                  end |}.
 
 (* ---- encodings ---- *)
 Definition b2z (b : bool) : Z := if b then 1 else 0.
@@ -114,6 +213,8 @@ Definition enc_val (v : val) : list Z :=
   | VStr (SNum z p) => [3; z; b2z p]
   | VStr (SWord k) => [4; k; 0]
   | VSelf => [5; 0; 0]
+  | VList items => [6; fold_right (fun it acc => (match it with SNum z p => (z + 50) * 2 + b2z p | SWord k => 200 + k end) + 256 * acc) 0 items;
+                    Z.of_nat (List.length items)]
   end.
 Definition zn (n : nat) : Z := Z.of_nat n.
 Definition enc_exn (e : exn) : list Z := zn (List.length e) :: map zn e.
@@ -145,7 +246,7 @@ Definition enc_demanded (d : demanded val) : list Z :=
 (* the strict-JSON clause at the end of _wrapper_content is outside the property text: cases in which it
    can fire are compared with the model only *)
 Definition flask_clause (dc : deco val) (env : wenv) : bool :=
-  d_strict dc && w_flask_installed env && forallb (@p_flask_json val) (d_params dc)
+  d_strict dc && w_flask_installed env && all_flask_json val dc
   && match w_request env with
      | None => true
      | Some rq => r_is_json rq
@@ -172,15 +273,38 @@ Definition domain (sg : signature val) (dc : deco val) (env : wenv) (c : call va
   else if names_fit val sg dc (if d_ignore_input dc then {| c_args := []; c_kwargs := [] |} else c) then 2   (* ignore_input: no name of the caller reaches the function *)
   else match demanded_raises val is_none sg dc c with _ :: _ => 2 | [] => 1 end.
 
-Definition eval_case (ps : list (param val)) (sps : list (sigparam val)) (varkw varpos : bool)
-           (mode : Z) (strict ignore is_async : bool) (rq : option (bool * list nat))
+(* a source whose has_value() raises is outside the interface of the model of _wrapper_content: distinguished output.
+   The model runs on the sources as the regenerated descriptions interpret them, the specification on the sources as
+   Spec/ValidateSourcesSpec.v describes them *)
+Definition eval_case (pds : list pdesc) (sps : list (sigparam val)) (varkw varpos : bool)
+           (mode : Z) (strict ignore is_async : bool) (w : world val)
            (args : list val) (kwargs : list (nat * val)) : list Z :=
-  let sg := {| s_params := sps; s_varkw := varkw; s_varpos := varpos |} in
-  let dc := {| d_params := ps; d_mode := mode_of mode; d_strict := strict; d_ignore_input := ignore |} in
-  let env := mkenv rq in
-  let c := {| c_args := args; c_kwargs := kwargs |} in
-  let r := run val is_none Gen.Validate.cfg Gen.Validate.is_required_rule sg env dc is_async c in
-  enc_journal (fst r) ++ enc_final (snd r) ++ [-1]
-  ++ [domain sg dc env c]
-  ++ (if domain sg dc env c =? 3 then enc_demanded_star (spec_star_outcome val is_none sg dc c) else enc_demanded (spec_outcome val is_none sg dc c))
-  ++ enc_journal (concat (spec_journals val is_none sg dc c)).
+  match bind_world w pds with
+  | Raise e => -7 :: enc_exn e
+  | Ok ps =>
+      let sg := {| s_params := sps; s_varkw := varkw; s_varpos := varpos |} in
+      let dc := {| d_params := ps; d_mode := mode_of mode; d_strict := strict; d_ignore_input := ignore |} in
+      let ds := {| d_params := bind_spec w pds; d_mode := mode_of mode; d_strict := strict; d_ignore_input := ignore |} in
+      let env := mkenv w in
+      let c := {| c_args := args; c_kwargs := kwargs |} in
+      let r := run val is_none Gen.Validate.cfg Gen.Validate.is_required_rule sg env dc is_async c in
+      enc_journal (fst r) ++ enc_final (snd r) ++ [-1]
+      ++ [domain sg ds env c]
+      ++ (if domain sg ds env c =? 3 then enc_demanded_star (spec_star_outcome val is_none sg ds c) else enc_demanded (spec_outcome val is_none sg ds c))
+      ++ enc_journal (concat (spec_journals val is_none sg ds c))
+  end.
+
+(* has_value() / load_value() of one source object in a world (stream validate-sources):
+   model ++ [-1] ++ specification (present; the value held, if any) *)
+Definition enc_has (h : outcome bool) : list Z := match h with Ok b => [0; b2z b] | Raise e => 1 :: enc_exn e end.
+Definition enc_load (l : wres val) : list Z := match l with WOk v => 0 :: enc_val v | WRaise e pn => 1 :: enc_pn pn :: enc_exn e end.
+
+Definition eval_probe (k : source_kind) (key : nat) (as_list : bool) (w : world val) : list Z :=
+  let s := {| s_cls := class_of_kind k; s_key := key; s_list := as_list; s_catch := true |} in
+  enc_has (src_has_v s w) ++ enc_load (src_load_v s w) ++ [-1]
+  ++ [b2z (in_context val k w); b2z (present val hkey k w key)]
+  ++ match source_value val hkey strip of_list k as_list w key with Some v => 1 :: enc_val v | None => [0] end.
+
+Definition eval_probe_deser (key : nat) (catch : bool) (w : world val) : list Z :=
+  let s := {| s_cls := generic_flask_deserializer; s_key := key; s_list := false; s_catch := catch |} in
+  enc_has (src_has_v s w) ++ enc_load (src_load_v s w) ++ [-1].
